@@ -66,7 +66,8 @@ def mon_c01(sc, obs):
             continue
         for i, (l, u) in enumerate(after):
             # float32 rounding is not modelled: outside the exact dyadic domain allow a few ulps
-            tol = F(0) if not (lib._inexact([l.numerator, l.denominator]) or lib._inexact([u.numerator, u.denominator])) else FLOAT_TOL
+            # float32 rounding is not modelled: a bound off the coarse dyadic grid may be a rounded result, allow a few ulps
+            tol = F(0) if (l.denominator <= 1024 and u.denominator <= 1024) else FLOAT_TOL
             if not (l - tol <= hidden[i] <= u + tol):
                 return (f"after op #{n} {op}: bounds of object {i} (kind {kb[i][0]}) contain the interpretation's value {hidden[i]}",
                         f"({l}, {u})", None)
@@ -365,9 +366,12 @@ def mon_c07(sc, obs):
     quiescent = all(x[1] == 0 and x[2] == x[3] for x in sweep)
     fin2 = s2[-1][3]
     hc1, hc2 = bool(o1[1][0]), bool(o2[-1][0])
+    def differs(a, b):
+        tol = F(0) if all(x.denominator <= 1024 for x in a + b) else FLOAT_TOL   # schedules round differently in float32
+        return abs(a[0] - b[0]) > tol or abs(a[1] - b[1]) > tol
     if clean1 and quiescent:
-        if fin1 != fin2:
-            d = [(i, fin1[i], fin2[i]) for i in range(len(kb)) if fin1[i] != fin2[i]][0]
+        if any(differs(fin1[i], fin2[i]) for i in range(len(kb))):
+            d = [(i, fin1[i], fin2[i]) for i in range(len(kb)) if differs(fin1[i], fin2[i])][0]
             return (f"infer() under roots {roots1} and a fair node-level schedule under roots {roots2} reach the same bounds", f"object {d[0]}: {d[1]} vs {d[2]}", None)
         if hc2:
             return ("contradiction found is order independent (infer: none)", "schedule 2 reports has_contradiction()", None)
@@ -375,7 +379,8 @@ def mon_c07(sc, obs):
         # any state reached by schedule 2 is never tighter than the clean fixpoint
         for n, x in enumerate(s2):
             for i, ((l, u), (L, U)) in enumerate(zip(x[3], fin1)):
-                if l > L or u < U:
+                tol2 = F(0) if all(x.denominator <= 1024 for x in (l, u, L, U)) else FLOAT_TOL
+                if l > L + tol2 or u < U - tol2:
                     return (f"state after op #{n} of schedule 2 is not tighter than the contradiction-free fixpoint ({L},{U}) at object {i}", f"({l},{u})", None)
     return None
 
